@@ -284,12 +284,22 @@ Proof. unfold all_digits. induction ds as [|d ds IH]; cbn; auto. intros H. apply
 Definition nbval (ds : str) : Z :=
   match ds with [] => 0%Z | _ => if (value ds <=? i64max)%Z then value ds else 0%Z end.
 
+Lemma crev_eq d : all_digits d ->
+  (if (cvalue (i64max + 1) d <=? i64max)%Z then cvalue (i64max + 1) d else 0%Z) = (if (value d <=? i64max)%Z then value d else 0%Z).
+Proof.
+  intros H. rewrite cvalue_spec by (auto; unfold i64max; lia).
+  destruct (Z.le_gt_cases (value d) i64max) as [L|G].
+  - rewrite Z.min_l by lia. reflexivity.
+  - rewrite Z.min_r by lia. replace (i64max + 1 <=? i64max)%Z with false by (symmetry; apply Z.leb_gt; lia).
+    replace (value d <=? i64max)%Z with false by (symmetry; apply Z.leb_gt; lia). reflexivity.
+Qed.
 Lemma lex1_final ds : all_digits ds -> lex1 (110 :: 98 :: ds) = Some (TRev (nbval ds), (2 + length ds)%nat).
 Proof. intros H. change (lex1 (110 :: 98 :: ds)) with (lex1_body 110 (110 :: 98 :: ds)). unfold lex1_body.
   change (fst (span_digits (110 :: 98 :: ds))) with (@nil N). cbv iota.
   change ((110 =? 46) || (110 =? 95)) with false. cbv iota.
   change (prefix_ci m_nb (110 :: 98 :: ds)) with true. cbv iota.
-  change (skipn 2 (110 :: 98 :: ds)) with ds. rewrite span_all by auto. reflexivity. Qed.
+  change (skipn 2 (110 :: 98 :: ds)) with ds. rewrite span_all by auto. cbn [fst]. unfold nbval.
+  destruct ds as [|d ds']; [reflexivity|]. cbv zeta iota. rewrite (crev_eq (d :: ds')) by auto. reflexivity. Qed.
 
 Lemma toks_suffix ds : all_digits ds -> forall k p, (length p <= k)%nat ->
   exists ts, toks (p ++ 110 :: 98 :: ds) (ts ++ [TRev (nbval ds)]).
